@@ -209,7 +209,7 @@ func (batch *Batch) ReadMessage() (Message, error) {
 	)
 	// A batch may start before the requested offset so skip messages
 	// until the requested offset is reached.
-	for batch.conn != nil && offset < batch.conn.offset {
+	for batch.conn != nil && offset < batch.conn.currentOffset() {
 		if err != nil {
 			break
 		}
